@@ -82,12 +82,19 @@ def composeinfo(D, version, rng):
     if comp["label"]:
         c["label"] = comp["label"]
         c["final"] = bool(comp["final"])
+    elif rng.random() < 0.3:
+        # hand-written files may spell the defaults out
+        c["final"] = False
+        if rng.random() < 0.5:
+            c["label"] = rng.choice([None, ""])
     payload["compose"] = c
     r = {"name": rel["name"], "version": rel["version"], "short": rel["short"]}
     if v >= (1, 1):
         r["type"] = rel["type"]
     if rel["is_layered"]:
         r["is_layered"] = True
+    elif rng.random() < 0.3:
+        r["is_layered"] = False
     payload["release" if v > (0, 3) else "product"] = r
     if rel["is_layered"] and D["base_product"]:
         b = dict((k, D["base_product"][k]) for k in ("name", "version", "short"))
@@ -309,13 +316,40 @@ def treeinfo(D, version, rng):
         S["media"] = {"discnum": str(D["media"]["discnum"]), "totaldiscs": str(D["media"]["totaldiscs"])}
     if D["checksums"]:
         S["checksums"] = dict((p, "%s:%s" % (t, x)) for p, (t, x) in D["checksums"].items())
+    return render_ini(S, rng), E
+
+
+def render_ini(S, rng, ordered=None):
+    """Hand-written looking INI text: legacy files were not produced by this library, so spacing, delimiter, blank lines,
+    comments, section order, option order and the spelling of booleans vary."""
+    style = rng.choice(["plain", "plain", "nospace", "colon", "comments", "shuffled"])
+    secs = list(ordered if ordered is not None else sorted(S))
+    if style == "shuffled":
+        rng.shuffle(secs)
     lines = []
-    for sec in sorted(S):
+    if style == "comments":
+        lines += ["# written by hand", "; another comment style", ""]
+    for sec in secs:
         lines.append("[%s]" % sec)
-        for k in sorted(S[sec]):
-            lines.append("%s = %s" % (k, S[sec][k]))
+        keys = list(S[sec]) if ordered is not None else sorted(S[sec])
+        if style == "shuffled":
+            rng.shuffle(keys)
+        for k in keys:
+            v = S[sec][k]
+            if k == "is_layered" and v == "true":
+                v = rng.choice(["true", "True", "TRUE", "yes", "1", "on"])
+            if style == "nospace":
+                lines.append("%s=%s" % (k, v))
+            elif style == "colon" and ":" not in k and "=" not in k:
+                lines.append("%s: %s" % (k, v))
+            else:
+                lines.append("%s = %s" % (k, v))
+            if style == "comments" and rng.random() < 0.2:
+                lines.append("# comment after %s" % k.replace("\n", " "))
         lines.append("")
-    return "\n".join(lines), E
+        if style == "comments":
+            lines.append("")
+    return "\n".join(lines)
 
 
 HACK_NAMES = ("Red Hat", "Fedora", "CentOS", "EulerOS", "Subscription Asset Manager", "JBEAP")
@@ -400,10 +434,4 @@ def treeinfo_0_0(D, rng):
          "stage2": {"mainimage": D["stage2"]["mainimage"] or None, "instimage": D["stage2"]["instimage"] or None},
          "media": dict(D["media"]) if D["media"] else {"discnum": None, "totaldiscs": None},
          "checksums": dict((p, [tv[0], tv[1]]) for p, tv in D["checksums"].items())}
-    lines = []
-    for sec in S:
-        lines.append("[%s]" % sec)
-        for k in S[sec]:
-            lines.append("%s = %s" % (k, S[sec][k]))
-        lines.append("")
-    return "\n".join(lines), E
+    return render_ini(S, rng, ordered=list(S)), E
